@@ -624,7 +624,7 @@ def expand(shards, tier, seed):
         modes = [0, 1, 2]
         nsh = 64
     out = list(shards)
-    budget = 150 if tier == "quick" else 1500
+    budget = 150 if tier == "quick" else 400
     cat = [{"kind": "catalog", "ids": ids[i::nsh], "modes": modes, "budget_s": budget} for i in range(nsh)]
     if tier == "thorough":
         cat += [{"kind": "catalog", "ids": ids[i::nsh], "modes": [0, 2], "double": True, "budget_s": budget} for i in range(nsh)]
